@@ -107,9 +107,22 @@ def run(ctx: Ctx) -> None:
         "p*exp(-(p+sum p*s_i)^2) with every parameter used once, min-ANN "
         "kernels partition 0..P-1 with slices of state length; D16.4 "
         "generator rules on make_ann; D16.5 the three systems equal the "
-        "published polynomials; D16.6 no kernel mutates state/params. Not "
-        "decided: value of the min-ANN minimiser, generated code beyond the "
-        "generator rules.")
+        "published polynomials and the factories declare as many state / "
+        "control dimensions as the equations have; D16.6 no kernel mutates "
+        "state/params; D16.0 also: every factory hands the k-dimensional "
+        "controller out under `state_dims == k` and rejects other control "
+        "dimensions; D16.7 the statements make_ann emits are exactly {input "
+        "load, hidden neuron = atan(bias + sum weight * input), output = "
+        "multiplier * atan(bias + sum weight * input)}, each one balanced "
+        "and terminated, inputs defined when registered, fresh names "
+        "numbered uniquely, recycling pops only non-empty lists, the "
+        "Controller gets (state_dims, control_dims, counter, built "
+        "function) and anns() requests (system.state_dims, "
+        "system.control_dims); D16.8 CodeGenerator's header, 4-space "
+        "indentation at line starts, newline discipline, indent/unindent "
+        "and build(). Not decided: value of the min-ANN minimiser, the "
+        "predefined literature controllers (no formula in the repository "
+        "to compare with).")
     ctx.assumptions += [
         "G7: kernel parameters state/params/out are 1-d float arrays",
         "association anchor<->law in partially linear controllers may be "
@@ -117,8 +130,21 @@ def run(ctx: Ctx) -> None:
     ]
     sites = controller_sites(ctx)
     with_kernel = [s for s in sites if s.kernel is not None]
-    ctx.floor("controller_factory_sites", len(sites), 28)
-    ctx.floor("controller_kernels", len({s.kernel for s in with_kernel}), 27)
+    ctx.count("controller_factory_sites", len(sites))
+    ctx.count("controller_kernels", len({s.kernel for s in with_kernel}))
+    nk = len({s.kernel for s in with_kernel})
+    nok = [s_ for s_ in sites if s_.kernel is None]
+    anchor = (nok[0] if nok else sites[0]) if sites else None
+    ctx.need(anchor is not None, "Controller(...) factory sites")
+    ctx.ob("D16.0", anchor.factory, anchor.call,
+           len(sites) >= 28 and nk >= 27,
+           f"{len(sites)} Controller(...) sites with {nk} distinct kernels "
+           "are analysed" if len(sites) >= 28 and nk >= 27 else
+           f"only {len(sites)} Controller(...) sites / {nk} kernels could be "
+           "resolved (28 / 27 on the reference tree): a factory passes "
+           "something that is not a kernel where the controller function "
+           "belongs", construct="factory sites resolved")
+    _dispatch(ctx, sites)
     ctx.rule("D16.0", "factory dims vs kernel index use: params indices used "
              "== {0..param_dims-1}, state indices < state_dims, out stores "
              "== {0..control_dims-1}")
@@ -567,8 +593,45 @@ def _check_systems(ctx: Ctx, eff: Effects) -> None:
                 r = repo.resolve_expr(mod, n.value)
                 if isinstance(r, FuncInfo):
                     kern = r
-        ctx.need(kern, f"{maker}: assignment of .equations to a kernel")
+        if kern is None:
+            ctx.ob("D16.5", mk, mk.node, False,
+                   f"{maker} does not install its differential equations "
+                   "(`system.equations = <kernel>` not found)",
+                   construct=f"{modn} equations installed")
+            continue
         n_sys += 1
+        # the declared dimensions are the number of equations / controls
+        def _is_system(c: ast.Call) -> bool:
+            if not isinstance(c.func, ast.Name):
+                return False
+            if c.func.id == "System":
+                return True
+            r_ = repo.resolve(mod, c.func.id)
+            return isinstance(r_, ClassInfo) and any(
+                getattr(b, "name", b) == "System" for b in repo.mro(r_))
+        sc = [c for c in ast.walk(mk.node) if isinstance(c, ast.Call)
+              and _is_system(c)]
+        dims_ok = False
+        why = "System(...) construction not found"
+        if len(sc) == 1 and len(sc[0].args) >= 5:
+            a = sc[0].args
+            sd_, cd_ = repo.const(mod, a[1]), repo.const(mod, a[2])
+            n_ctrl = len({idx for at in all_atoms(tuple(
+                _system_outputs(repo, kern))) if at[0] == "cell"
+                and at[1] == kern.params[2]
+                for idx in [_cell_index(at)] if idx is not None})
+            dims_ok = sd_ == len(ref) and cd_ == max(n_ctrl, 1) and \
+                isinstance(repo.const(mod, a[4]), int) and \
+                0 < repo.const(mod, a[4]) <= len(ref) or (
+                    sd_ == len(ref) and cd_ == max(n_ctrl, 1)
+                    and repo.const(mod, a[4]) == -1)
+            why = (f"System({ast.unparse(a[0])}, state_dims={sd_}, "
+                   f"control_dims={cd_}, ...): the equations have "
+                   f"{len(ref)} components and read {n_ctrl} control "
+                   "input(s)")
+        ctx.ob("D16.5", mk, sc[0] if sc else mk.node, bool(dims_ok),
+               why if dims_ok else why + " - dimensions do not match",
+               construct=f"{modn} declared dimensions")
         try:
             env = eval_kernel(repo, kern, symbolic_consts={"pi": "pi"})
         except Unsupported as u:
@@ -623,5 +686,78 @@ def _check_make_ann(ctx: Ctx) -> None:
              "by counter += 1 before the next emission; Controller receives "
              "the final counter; state[{i}]/out[{i}] are emitted under "
              "range(state_dims)/range(control_dims)")
-    from sa.checks.c16_gen import check_generator
+    from sa.checks.c16_gen import (check_code_generator,
+                                   check_emission_grammar, check_generator)
     check_generator(ctx, fi)
+    ctx.rule("D16.7", "emission grammar of make_ann, its Controller and "
+             "the architectures requested")
+    check_emission_grammar(ctx, fi)
+    ctx.rule("D16.8", "CodeGenerator line / indentation protocol")
+    check_code_generator(ctx)
+
+
+def _system_outputs(repo: Any, kern: FuncInfo) -> list[Any]:
+    try:
+        env = eval_kernel(repo, kern, symbolic_consts={"pi": "pi"})
+    except Unsupported:
+        return []
+    return [v for (arr, _), v in env.stores.items() if arr == kern.params[3]]
+
+
+# ------------------------------------------------------------------ D16.0b
+def _dispatch(ctx: Ctx, sites: list[Site]) -> None:
+    """A controller for k state dimensions is handed out exactly to systems
+    with k state dimensions (and the control dimension it was built for)."""
+    repo = ctx.repo
+    by_factory: dict[FuncInfo, list[Site]] = {}
+    for s in sites:
+        by_factory.setdefault(s.factory, []).append(s)
+    n = 0
+    for fac, ss in by_factory.items():
+        if not fac.params:
+            continue
+        sysn = fac.params[0]
+        for s in ss:
+            if not isinstance(s.sd, int):
+                continue
+            # the innermost `if` around the construction
+            par = None
+            for node in ast.walk(fac.node):
+                if isinstance(node, ast.If) and any(
+                        s.call is x for st in node.body
+                        for x in ast.walk(st)):
+                    par = node
+            if par is None:
+                continue
+            t = par.test
+            if not (isinstance(t, ast.Compare) and len(t.ops) == 1 and
+                    ast.unparse(t.left) == f"{sysn}.state_dims"):
+                continue
+            n += 1
+            k = repo.const(fac.module, t.comparators[0])
+            ok = isinstance(t.ops[0], ast.Eq) and k == s.sd
+            ctx.ob("D16.0", fac, par, ok,
+                   f"{fac.name}: the {s.sd}-dimensional controller is "
+                   f"returned for systems with state_dims == {s.sd}" if ok
+                   else f"{fac.name}: a controller reading {s.sd} state "
+                   f"dimensions is returned under `{ast.unparse(t)}`",
+                   construct=f"{fac.name} dispatch {s.sd}d")
+        guards = [node for node in ast.walk(fac.node) if isinstance(
+            node, ast.If) and node.body and isinstance(
+            node.body[-1], ast.Raise) and isinstance(
+            node.test, ast.Compare) and ast.unparse(
+            node.test.left) == f"{sysn}.control_dims"]
+        cds = {s.cd for s in ss if isinstance(s.cd, int)}
+        if guards and len(cds) == 1:
+            n += 1
+            t = guards[0].test
+            k = repo.const(fac.module, t.comparators[0])
+            ok = isinstance(t.ops[0], ast.NotEq) and k == next(iter(cds))
+            ctx.ob("D16.0", fac, guards[0], ok,
+                   f"{fac.name}: systems with another control dimension "
+                   f"than {next(iter(cds))} are rejected" if ok else
+                   f"{fac.name}: controllers with {next(iter(cds))} "
+                   f"output(s) are built although the guard is "
+                   f"`{ast.unparse(t)}`",
+                   construct=f"{fac.name} control dimension guard")
+    ctx.count("dispatch_guards", n)
